@@ -283,6 +283,41 @@ Lemma cons_step_astep : forall s c s1 o,
 Proof.
   intros s c s1 o H [So Sf] Hc [Li Lc]. unfold cons_step in H.
   destruct (c_pc (con s)) as [ |q|q|q| | | | | | | ] eqn:Epc.
+  11: { (* CTrig: a Trigger call made by the loop thread itself *)
+    destruct (trig_step s O c) as [[s2 o2] done] eqn:Et.
+    destruct done.
+    - destruct (resume s2) as [s3 o3] eqn:Er. injection H as Hs Ho. subst s1 o.
+      (* facts about resume need idleness of the loop's slot, which trig_step gives once we know s2 is sane *)
+      assert (Fr : forall (Hi : loop_idle s2) (Hp : c_chores (con s2) = true -> c_phase (con s2) = PhEvents),
+                 g_ovf (w_gh s3) = g_ovf (w_gh s2) /\ g_fault (w_gh s3) = g_fault (w_gh s2)).
+      { intros Hi Hp. pose proof (resume_frame s2 Hi Hp) as R. cbn zeta in R. rewrite Er in R. cbn [fst] in R.
+        destruct R as (_ & _ & _ & C & D & _). split; assumption. }
+      (* the Trigger call returned: its last step cannot have raised a flag after the fact, so go through
+         trig_step with the flags of s3 *)
+      assert (Hd : t_pc (get_trig (trigs s2) O) = TIdle /\ con s2 = con s).
+      { unfold trig_step in Et. destruct (get_trig (trigs s) O) as [p x] eqn:Eth. cbn [t_pc t_task] in Et.
+        destruct p as [| |q|q| | |]; destruct c as [order| | |sp|v|k sc|k l]; try discriminate Et;
+          repeat match type of Et with
+                 | context [efd_write ?a] => destruct (efd_write a) as [? []]
+                 | context [efd_read ?a] => destruct (efd_read a)
+                 | context [if ?b then _ else _] => destruct b
+                 end; try discriminate Et; inv Et; unfold ret_trig; cbn [trigs con set_trig set_trigs set_gh set_sh]; rewrite get_put_same; auto. }
+      destruct Hd as [Hi2 Econ].
+      assert (Hp2 : c_chores (con s2) = true -> c_phase (con s2) = PhEvents).
+      { rewrite Econ. intro X. apply (Lc X). }
+      destruct (Fr Hi2 Hp2) as [Fo Ff].
+      assert (S2 : sane s2) by (split; [rewrite <- Fo; exact So|rewrite <- Ff; exact Sf]).
+      destruct (trig_step_astep _ _ _ _ _ _ Et S2 Hc) as (S0 & C2 & _ & _ & _ & _ & AS).
+      pose proof (resume_frame s2 Hi2 Hp2) as R. cbn zeta in R. rewrite Er in R. cbn [fst] in R.
+      destruct R as (L0 & A & B & C & D & E & F & G & I & J1 & J2 & K).
+      splits; [exact S0|unfold cnt_ok; rewrite A; exact C2|exact L0|].
+      eapply astep_eq; [exact AS|].
+      unfold view; apply mkA_eq; rewrite ?A, ?E, ?F, ?G, ?I, ?J1, ?J2, ?K; try reflexivity;
+        unfold d_q, cls_of; rewrite Econ, Epc; reflexivity.
+    - injection H as Hs Ho. subst s1 o.
+      destruct (trig_step_astep _ _ _ _ _ _ Et (conj So Sf) Hc) as (S0 & C2 & Econ & _ & _ & _ & AS).
+      splits; [exact S0|exact C2| |exact AS].
+      split; [rewrite Econ, Epc; intro X; congruence|rewrite Econ; exact Lc]. }
   all: try (assert (Hidle : loop_idle s) by (apply Li; discriminate)).
   all: try (assert (Hch : c_chores (con s) = false)
              by (destruct (c_chores (con s)) eqn:X; [destruct (Lc X); congruence|reflexivity])).
@@ -390,4 +425,189 @@ Proof.
     splits; [split; assumption|exact (E7 Hc)|apply loop_ok_intro; [exact Hidle|exact Hch]|].
     src Epc. eapply astep_eq; [eapply (A_drop _ _ (eff_edge x1)); [right; reflexivity|exact E1]|].
     unfold view; apply mkA_eq; vnormc; rewrite ?E2, ?E3, ?E4, ?E5, ?E6; reflexivity.
+Qed.
+
+(* ---- every step of the model ---- *)
+Definition winv (s : wstate) : Prop := cnt_ok s /\ loop_ok s /\ AInv (view s).
+
+Lemma view_counts_eq : forall s s',
+  w_sh s' = w_sh s -> n_p1 QU s' = n_p1 QU s -> n_p1 QL s' = n_p1 QL s -> n_p2 s' = n_p2 s -> n_p3 s' = n_p3 s ->
+  con s' = con s -> view s' = view s.
+Proof.
+  intros s s' A B C D E F. unfold view. destruct (d_cls_con s s' F) as (G & H & I).
+  rewrite A, B, C, D, E, G, H, I. reflexivity.
+Qed.
+
+Lemma wstep_astep : forall s t c s1 o,
+  wstep s t c = (s1, o) -> sane s1 -> cnt_ok s -> loop_ok s ->
+  sane s /\ cnt_ok s1 /\ loop_ok s1 /\ astep (view s) (view s1).
+Proof.
+  intros s t c s1 o H S1 Hc Lk. unfold wstep in H.
+  assert (Prod : forall t', (let '(s2, o2, _) := trig_step s (S t') c in (s2, o2)) = (s1, o) ->
+            sane s /\ cnt_ok s1 /\ loop_ok s1 /\ astep (view s) (view s1)).
+  { intros t' H'. destruct (trig_step s (S t') c) as [[s2 o2] done] eqn:Et. inv H'.
+    destruct (trig_step_astep _ _ _ _ _ _ Et S1 Hc) as (S0 & C2 & Econ & _ & _ & Oth & AS).
+    splits; [exact S0|exact C2| |exact AS].
+    destruct Lk as [Li Lc]. split; [|rewrite Econ; exact Lc].
+    rewrite Econ. intro X. unfold loop_idle. rewrite Oth by discriminate. apply Li. exact X. }
+  destruct c as [order| | |sp|v|k sc|k l].
+  - destruct t; [apply (cons_step_astep _ _ _ _ H S1 Hc Lk)|apply (Prod _ H)].
+  - destruct t; [apply (cons_step_astep _ _ _ _ H S1 Hc Lk)|apply (Prod _ H)].
+  - destruct t; [apply (cons_step_astep _ _ _ _ H S1 Hc Lk)|apply (Prod _ H)].
+  - (* CStart *)
+    destruct t as [|t']; [inv H; splits; [exact S1|exact Hc|exact Lk|apply A_nop]|].
+    destruct (t_pc (get_trig (trigs s) (S t'))) eqn:Epc;
+      try (inv H; splits; [exact S1|exact Hc|exact Lk|apply A_nop]).
+    pose proof (start_trig_frame s (S t') sp) as Fr. cbn zeta in Fr.
+    assert (Hpre : pre_link (t_pc (get_trig (trigs s) (S t')))) by (rewrite Epc; exact I).
+    pose proof (start_trig_counts s (S t') sp Hpre) as Cn. cbn zeta in Cn.
+    rewrite H in Fr, Cn. cbn [fst] in Fr, Cn.
+    destruct Fr as (A & B & C & D & E & F). destruct Cn as (G & J & K & L).
+    destruct S1 as [So Sf]. splits.
+    + split; [rewrite <- D; exact So|rewrite <- E; exact Sf].
+    + unfold cnt_ok. rewrite A. exact Hc.
+    + destruct Lk as [Li Lc]. split; [|rewrite B; exact Lc].
+      rewrite B. intro X. unfold loop_idle. rewrite F. rewrite get_put_other by discriminate. apply Li. exact X.
+    + eapply astep_eq; [apply A_nop|]. symmetry. apply view_counts_eq; assumption.
+  - (* CPreload *)
+    unfold env_step in H.
+    destruct ((0 <? v) && (efd_cnt (w_sh s) + v <=? efd_max)) eqn:Ev; inv H;
+      [|splits; [exact S1|exact Hc|exact Lk|apply A_nop]].
+    splits; [exact S1| |exact Lk|].
+    + clear Prod. unfold cnt_ok in *. cbn [w_sh set_sh efd_cnt sh_efd]. lia.
+    + eapply astep_eq; [unfold view; apply A_raise|].
+      unfold view; apply mkA_eq; vnorm; try reflexivity.
+      clear Prod. unfold eff_edge; cbn [edge efd_cnt sh_efd]. unfold cnt_ok in Hc. lia.
+  - (* CIo *)
+    unfold env_step in H.
+    destruct ((k <? 0) || existsb (fun e => Z.eqb (fst e) k) (io_pend (w_env s))); inv H;
+      splits; try exact S1; try exact Hc; try exact Lk; apply A_nop.
+  - (* CScript *)
+    unfold env_step in H. inv H. splits; try exact S1; try exact Hc; try exact Lk; apply A_nop.
+Qed.
+
+(* the two flags that put a run outside the property are never lowered *)
+Definition fl_le (s s1 : wstate) : Prop :=
+  (g_ovf (w_gh s) = true -> g_ovf (w_gh s1) = true) /\ (g_fault (w_gh s) = true -> g_fault (w_gh s1) = true).
+
+Lemma fl_refl : forall s, fl_le s s. Proof. intro s; split; auto. Qed.
+Lemma fl_trans : forall a b c, fl_le a b -> fl_le b c -> fl_le a c.
+Proof. intros a b c [A B] [C D]. split; auto. Qed.
+Lemma fl_eq : forall s s1, g_ovf (w_gh s1) = g_ovf (w_gh s) -> g_fault (w_gh s1) = g_fault (w_gh s) -> fl_le s s1.
+Proof. intros s s1 A B. split; congruence. Qed.
+
+Lemma start_trig_fl : forall s t sp, fl_le s (fst (start_trig s t sp)).
+Proof. intros. apply fl_eq; reflexivity. Qed.
+
+Lemma run_evs_fl : forall evs s, fl_le s (fst (run_evs evs s)).
+Proof.
+  induction evs as [|e r IH]; intro s.
+  - cbn. destruct (c_chores (con s)); apply fl_eq; reflexivity.
+  - destruct e as [|k sc]; cbn [run_evs].
+    + eapply fl_trans; [|apply IH]. apply fl_eq; reflexivity.
+    + destruct (lookup_script (scripts (w_env s)) sc) as [|sp todo].
+      * specialize (IH s). destruct (run_evs r s). exact IH.
+      * match goal with |- context [start_trig ?a ?b ?c] => pose proof (start_trig_fl a b c) as P;
+          destruct (start_trig a b c) end. eapply fl_trans; [|exact P]. apply fl_eq; reflexivity.
+Qed.
+
+Lemma resume_fl : forall s, fl_le s (fst (resume s)).
+Proof.
+  intro s. unfold resume. destruct (c_todo (con s)) as [|sp todo].
+  - destruct (c_phase (con s)); [apply run_evs_fl|apply fl_eq; reflexivity|].
+    destruct (c_low (con s) <? e_max (w_env s)); apply fl_eq; reflexivity.
+  - match goal with |- context [start_trig ?a ?b ?c] => pose proof (start_trig_fl a b c) as P end.
+    eapply fl_trans; [|exact P]. apply fl_eq; reflexivity.
+Qed.
+
+Lemma exec_task_fl : forall s q x, fl_le s (fst (exec_task s q x)).
+Proof.
+  intros s q x. unfold exec_task.
+  destruct (sp_kind (tk_spec x)) as [|c|c]; [|destruct (zmem c (closed (w_env s)))|];
+    match goal with |- context [resume ?a] => pose proof (resume_fl a) as P; destruct (resume a) end;
+    (eapply fl_trans; [|exact P]); apply fl_eq; reflexivity.
+Qed.
+
+Lemma add_len_fl : forall s q d, fl_le s (fst (add_len s q d)).
+Proof. intros. unfold add_len; cbn. split; cbn; intro H; [rewrite H; reflexivity|exact H]. Qed.
+
+Lemma trig_step_fl : forall s t c, fl_le s (fst (fst (trig_step s t c))).
+Proof.
+  intros s t c. unfold trig_step. destruct (get_trig (trigs s) t) as [p x]. cbn [t_pc t_task].
+  destruct p as [| |q|q| | |]; destruct c as [order| | |sp|v|k sc|k l]; cbn [fst]; try apply fl_refl.
+  - apply fl_eq; reflexivity.
+  - apply fl_eq; cbn; [apply gh_link_ovf|apply gh_link_fault].
+  - pose proof (add_len_fl s q 1) as P. destruct (add_len s q 1). cbn [fst] in *.
+    eapply fl_trans; [exact P|]. apply fl_eq; reflexivity.
+  - destruct (flag (w_sh s) =? 0); cbn [fst]; apply fl_eq; reflexivity.
+  - destruct (efd_write (w_sh s)) as [x1 []]; cbn [fst]; apply fl_eq; reflexivity.
+  - split; cbn; auto.
+  - destruct (efd_read (w_sh s)). cbn [fst]. apply fl_eq; reflexivity.
+Qed.
+
+Lemma cons_step_fl : forall s c, fl_le s (fst (cons_step s c)).
+Proof.
+  intros s c. unfold cons_step.
+  destruct (c_pc (con s)) as [ |q|q|q| | | | | | | ].
+  11: { pose proof (trig_step_fl s O c) as P. destruct (trig_step s O c) as [[s2 o2] done]. cbn [fst] in P.
+        destruct done; [|exact P]. pose proof (resume_fl s2) as Q. destruct (resume s2). cbn [fst] in *.
+        eapply fl_trans; eassumption. }
+  all: destruct c as [order| | |sp|v|k sc|k l]; cbn [fst]; try apply fl_refl.
+  - match goal with |- context [match ?e with [] => _ | _ :: _ => _ end] => destruct e eqn:Ee end.
+    + apply fl_eq; reflexivity.
+    + match goal with |- context [run_evs ?a ?b] => pose proof (run_evs_fl a b) as P; destruct (run_evs a b) end.
+      cbn [fst] in *. eapply fl_trans; [|exact P]. apply fl_eq; reflexivity.
+  - destruct (items q (w_sh s)); apply fl_eq; reflexivity.
+  - destruct q; [destruct (0 <? e_max (w_env s))|]; apply fl_eq; reflexivity.
+  - pose proof (add_len_fl s q (-1)) as P. destruct (add_len s q (-1)) as [s2 v]. cbn [fst] in P.
+    pose proof (exec_task_fl s2 q (c_held (con s))) as Q. destruct (exec_task s2 q (c_held (con s))). cbn [fst] in *.
+    eapply fl_trans; eassumption.
+  - apply fl_eq; reflexivity.
+  - apply fl_eq; reflexivity.
+  - apply fl_eq; reflexivity.
+  - destruct (flag (w_sh s) =? 0); apply fl_eq; reflexivity.
+  - destruct (efd_write (w_sh s)) as [x1 []]; apply fl_eq; reflexivity.
+  - split; cbn; auto.
+  - destruct (efd_read (w_sh s)). apply fl_eq; reflexivity.
+Qed.
+
+Lemma wstep_fl : forall s t c, fl_le s (fst (wstep s t c)).
+Proof.
+  intros s t c. unfold wstep.
+  assert (P : forall t', fl_le s (fst (let '(s1, o, _) := trig_step s (S t') c in (s1, o)))).
+  { intro t'. pose proof (trig_step_fl s (S t') c) as Q. destruct (trig_step s (S t') c) as [[s2 o2] d]. exact Q. }
+  destruct c as [order| | |sp|v|k sc|k l].
+  - destruct t; [apply cons_step_fl|apply P].
+  - destruct t; [apply cons_step_fl|apply P].
+  - destruct t; [apply cons_step_fl|apply P].
+  - destruct t; [apply fl_refl|]. destruct (t_pc (get_trig (trigs s) (S t))); try apply fl_refl. apply start_trig_fl.
+  - unfold env_step. destruct ((0 <? v) && (efd_cnt (w_sh s) + v <=? efd_max)); apply fl_eq; reflexivity.
+  - unfold env_step. destruct ((k <? 0) || existsb (fun e => Z.eqb (fst e) k) (io_pend (w_env s))); apply fl_eq; reflexivity.
+  - apply fl_eq; reflexivity.
+Qed.
+
+Lemma sane_back : forall s t c s1 o, wstep s t c = (s1, o) -> sane s1 -> sane s.
+Proof.
+  intros s t c s1 o H [So Sf]. pose proof (wstep_fl s t c) as [A B]. rewrite H in A, B. cbn [fst] in A, B.
+  split.
+  - destruct (g_ovf (w_gh s)); [rewrite A in So by reflexivity; discriminate|reflexivity].
+  - destruct (g_fault (w_gh s)); [rewrite B in Sf by reflexivity; discriminate|reflexivity].
+Qed.
+
+Lemma AInv_init : forall thr max, AInv (view (init_state thr max)).
+Proof. intros. unfold AInv, view, KW, KB, KChkL, KChkU, KCas, KWr; cbn. lia. Qed.
+
+Theorem winv_reachable : forall s, reachable wk_init wk_step s -> sane s -> winv s.
+Proof.
+  intros s R. induction R as [s [thr [max Hi]]|s l s' R IH Hs]; intro Sn.
+  - subst s. splits.
+    + unfold cnt_ok; cbn; lia.
+    + apply loop_ok_intro; reflexivity.
+    + apply AInv_init.
+  - destruct l as [[t c] o]. unfold wk_step in Hs. cbn [fst snd] in Hs.
+    pose proof (sane_back _ _ _ _ _ Hs Sn) as Sb.
+    destruct (IH Sb) as (Hc & Lk & AI).
+    destruct (wstep_astep _ _ _ _ _ Hs Sn Hc Lk) as (_ & C1 & L1 & AS).
+    splits; [exact C1|exact L1|].
+    eapply astep_preserves; [apply wf_view|apply wf_view|exact AI|exact AS].
 Qed.
